@@ -1,11 +1,18 @@
 import Pycoin.Model.Validate
-import Pycoin.Proofs.SighashCommit
+import Pycoin.Proofs.SighashFields
+import Pycoin.Props.C04
 /-!
 C06 — Validation is tamper-evident: signatures bind what their hash type commits.
 
 The commitment of a legacy signature is the temporary transaction `_signature_hash` builds (`committedLegacy`): two
-preimages are equal exactly when these blanked transactions (and the hash-type words) are.  For BIP143 and the fork-id
-variants the commitment is the list of the ten items of the message.  The interpreter is a parameter (`VM`).
+preimages are equal exactly when these blanked transactions (and the hash-type words) are; read back field by field
+this is `legacyFields` (`C06_committed_fields_legacy`, every hash-type word, every script code).  For BIP143 and the
+fork-id variants the commitment is the list of the ten items of the message (`C06_committed_iff_bip143`), and — the part
+hashes standing for the lists they digest, an explicit hypothesis — the fields `fields143` (`C06_committed_fields_bip143`).
+The frame direction runs through the model of `is_solution_ok`: the closures read the state only through the committed
+bytes (`C06_oracle_reads_preimage_only`), so a change outside the commitment leaves the verdict as it was
+(`C06_uncommitted_change_same_verdict`, with `C06_other_unlocking_data_free` and `C06_none_outputs_free` as instances).
+The interpreter is a parameter (`VM`).
 -/
 namespace Pycoin.Validate
 open Pycoin Pycoin.Wire Pycoin.Sighash Pycoin.Spec.Sighash Pycoin.Spec.Wire
@@ -234,11 +241,10 @@ theorem legacy_closure_congr (c : Coin) (tx tx' : Tx) (script : Bytes) (idx ht :
 structure InScope (tx : Tx) (idx : Nat) (script : Bytes) : Prop where
   wf : tx.WF
   idx : idx < tx.ins.length
-  complete : Complete script
   len : LenOk script
 
 /-- C06.committed_iff (legacy): for the same hash-type word, two legacy preimages — of any two transactions, input
-positions and script codes in scope — are equal **iff** the committed projections are equal, where the projection is the
+positions and script codes in scope (every script code: complete pushes or not) — are equal **iff** the committed projections are equal, where the projection is the
 blanked temporary transaction (`committedLegacy`: version, lock time, the kept inputs with outpoint, sequence-or-zero and
 the stripped script code at the signed position, the kept outputs).  "⇐" is congruence, "⇒" is unique decoding of the
 wire format. -/
@@ -246,8 +252,10 @@ theorem C06_committed_iff_legacy (c : Coin) (tx tx' : Tx) (idx idx' : Nat) (scri
     (hx : InScope tx idx script) (hy : InScope tx' idx' script') (ht : Nat) (hht : ht < 2 ^ 32) :
     Sighash.legacyPreimage c tx script idx ht = Sighash.legacyPreimage c tx' script' idx' ht ↔
       committedLegacy tx script idx ht = committedLegacy tx' script' idx' ht := by
-  obtain ⟨st, hdel, hsl, _⟩ := strip_is_serializeScriptCode script hx.complete
-  obtain ⟨st', hdel', hsl', _⟩ := strip_is_serializeScriptCode script' hy.complete
+  obtain ⟨hdel, hsl, _⟩ := strip_serializeScriptCode_all script
+  obtain ⟨hdel', hsl', _⟩ := strip_serializeScriptCode_all script'
+  generalize strippedBody script ++ instrTail script = st at hdel hsl
+  generalize strippedBody script' ++ instrTail script' = st' at hdel' hsl'
   have hs : LenOk st := by have := hx.len; unfold LenOk at this ⊢; omega
   have hs' : LenOk st' := by have := hy.len; unfold LenOk at this ⊢; omega
   rw [legacyPreimage_tmp c tx hx.wf idx hx.idx script st hdel hs ht hht,
@@ -358,6 +366,366 @@ theorem C06_bip143_none_frees_outputs (H : Bytes → Bytes) (tx : Tx) (outs' : L
   have hs : fHashSingle ht = false := flags_excl ht h
   simp [committed143, Spec.Sighash.hashOutputs, Spec.Sighash.hashPrevouts, Spec.Sighash.hashSequence, h, hs]
 
+/-! ## the committed field set, hash type by hash type -/
+
+/-- C06.committed_fields_legacy: for **every** hash-type word (all 256 bytes, any upper bits), the same input position
+of two transactions in scope and any two script codes, the legacy preimages are equal **iff** the listed fields are:
+version, lock time, the script code with its OP_CODESEPARATORs removed, the outpoints and sequence numbers of the kept
+inputs — all of them, the sequence numbers of the other inputs read as zero under NONE and SINGLE; under ANYONECANPAY
+the signed input alone — and the kept outputs — all; none under NONE; under SINGLE the output at the input's position
+(the null outputs before it carry only that position).  With SIGHASH_SINGLE and no output at the input's position
+nothing at all is committed (`C06_single_bug_commits_nothing`). -/
+theorem C06_committed_fields_legacy (c : Coin) (tx tx' : Tx) (idx : Nat) (script script' : Bytes)
+    (hx : InScope tx idx script) (hy : InScope tx' idx script') (ht : Nat) (hht : ht < 2 ^ 32)
+    (hb : isBug tx idx ht = false) (hb' : isBug tx' idx ht = false) :
+    Sighash.legacyPreimage c tx script idx ht = Sighash.legacyPreimage c tx' script' idx ht ↔
+      legacyFields tx (strippedBody script ++ instrTail script) idx ht =
+      legacyFields tx' (strippedBody script' ++ instrTail script') idx ht := by
+  rw [C06_committed_iff_legacy c tx tx' idx idx script script' hx hy ht hht,
+    committedLegacy_eq tx idx hx.idx script _ (strip_serializeScriptCode_all script).1 ht,
+    committedLegacy_eq tx' idx hy.idx script' _ (strip_serializeScriptCode_all script').1 ht, hb, hb']
+  simp only [Bool.false_eq_true, if_false, Except.ok.injEq, Option.some.injEq]
+  exact tmpOf_iff_fields tx tx' _ _ idx ht hx.idx hy.idx
+
+/-- C06.single_bug_commits_nothing: with base type SIGHASH_SINGLE and no output at the input's position, the value
+`_signature_hash` returns (Bitcoin, Litecoin, Groestlcoin) is the constant `1 << 248` whatever the transaction, the
+script code and the other hash-type bits are: a signature over it is valid for **any** other transaction in the same
+situation — no field is committed, and pycoin reproduces consensus here -/
+theorem C06_single_bug_commits_nothing (c : Coin) (hc : requiresForkId c = false) (tx tx' : Tx) (us us' : List (Option TxOut))
+    (script script' : Bytes) (idx idx' ht ht' : Nat) (hs : fHashSingle ht = true) (hs' : fHashSingle ht' = true)
+    (hidx : idx ≥ tx.outs.length) (hidx' : idx' ≥ tx'.outs.length) :
+    signatureHash c tx us script idx ht = signatureHash c tx' us' script' idx' ht' := by
+  rw [(C04_single_out_of_range c hc tx us script idx ht hs hidx).1, (C04_single_out_of_range c hc tx' us' script' idx' ht' hs' hidx').1]
+
+/-- C06.committed_fields_bip143 (⇐, unconditional): equal listed fields give equal BIP143 messages — for every hash type;
+with `ht | forkid·256` this is the Bitcoin Cash / Bitcoin Gold digest.  The fields (`fields143`): version, lock time, the
+input's outpoint, sequence number, script code and **spent amount**, the hash-type word; every outpoint unless
+ANYONECANPAY; every sequence number unless ANYONECANPAY / NONE / SINGLE; every output, under SINGLE the output at the
+input's position (nothing when there is none — the item is then 32 zero bytes, no constant as in the legacy digest),
+under NONE nothing. -/
+theorem C06_fields_imp_preimage_bip143 (H : Bytes → Bytes) (tx tx' : Tx) (idx idx' : Nat) (code code' : Bytes)
+    (amt amt' ht ht' : Nat) (h : fields143 tx idx code amt ht = fields143 tx' idx' code' amt' ht') :
+    committed143 H tx idx code amt ht = committed143 H tx' idx' code' amt' ht' := by
+  rw [committed143_of_fields, committed143_of_fields, h]
+
+/-- C06.committed_fields_bip143 (⇔; the extra hypotheses are about the digest function, not the code: `hP`, `hS`, `hO` —
+the part hash does not collide on the two outpoint lists / sequence lists / committed output lists; `hZ` — the digest of
+an output is not 32 zero bytes, needed only when under SIGHASH_SINGLE one transaction has the output and the other has
+not): the BIP143 messages are equal iff the listed fields are -/
+theorem C06_committed_fields_bip143 (single : Bool)
+    (tx tx' : Tx) (hwf : tx.WF) (hwf' : tx'.WF) (idx idx' : Nat) (hidx : idx < tx.ins.length) (hidx' : idx' < tx'.ins.length)
+    (code code' : Bytes) (hc : LenOk code) (hc' : LenOk code') (amt amt' : Nat) (ha : amt < 2 ^ 64) (ha' : amt' < 2 ^ 64)
+    (ht ht' : Nat) (hht : ht < 2 ^ 32) (hht' : ht' < 2 ^ 32)
+    (hP : ∀ a b, a = (tx.ins.map outpoint).flatten → b = (tx'.ins.map outpoint).flatten → sha single a = sha single b → a = b)
+    (hS : ∀ a b, a = (tx.ins.map fun t => le 4 t.sequence.toNat).flatten →
+      b = (tx'.ins.map fun t => le 4 t.sequence.toNat).flatten → sha single a = sha single b → a = b)
+    (hO : ∀ l l', outsCommitted tx idx ht = some l → outsCommitted tx' idx' ht' = some l' →
+      sha single (l.map txout).flatten = sha single (l'.map txout).flatten → (l.map txout).flatten = (l'.map txout).flatten)
+    (hZ : ∀ l, (outsCommitted tx idx ht = some l ∧ outsCommitted tx' idx' ht' = none) ∨
+        (outsCommitted tx' idx' ht' = some l ∧ outsCommitted tx idx ht = none) →
+        sha single (l.map txout).flatten ≠ Spec.Sighash.zero32) :
+    bip143Preimage (sha single) tx idx code amt ht = bip143Preimage (sha single) tx' idx' code' amt' ht' ↔
+      fields143 tx idx code amt ht = fields143 tx' idx' code' amt' ht' := by
+  rw [C06_committed_iff_bip143 single tx tx' hwf hwf' idx idx' hidx hidx' code code' hc hc' amt amt' ha ha' ht ht' hht hht']
+  exact ⟨fields_of_items (sha single) tx tx' hwf hwf' idx idx' code code' amt amt' ht ht' hP hS hO hZ,
+    C06_fields_imp_preimage_bip143 (sha single) tx tx' idx idx' code code' amt amt' ht ht'⟩
+
+/-- the flags read the low byte of the hash-type word only: folding a fork id into bits 8… (Bitcoin Gold: 79) changes
+none of them, so `fields143 … (ht | forkid·256)` lists the same fields as `fields143 … ht` plus the fork id in the word -/
+theorem C06_forkid_flags (ht f : Nat) :
+    fAnyoneCanPay (ht ||| (f <<< 8)) = fAnyoneCanPay ht ∧ fHashSingle (ht ||| (f <<< 8)) = fHashSingle ht ∧
+    fHashNone (ht ||| (f <<< 8)) = fHashNone ht := by
+  have h255 : (ht ||| (f <<< 8)) &&& 0xff = ht &&& 0xff := by
+    rw [Nat.and_or_distrib_right]
+    have : (f <<< 8) &&& 0xff = 0 := by
+      have := Nat.and_two_pow_sub_one_eq_mod (f <<< 8) 8
+      simp only [show (2:Nat) ^ 8 - 1 = 0xff from rfl] at this
+      rw [this, Nat.shiftLeft_eq]
+      omega
+    rw [this, Nat.or_zero]
+  have key : ∀ m, 0xff &&& m = m → (ht ||| (f <<< 8)) &&& m = ht &&& m := by
+    intro m hm
+    rw [← hm, ← Nat.and_assoc, ← Nat.and_assoc, h255]
+  unfold fAnyoneCanPay fHashSingle fHashNone SIGHASH_ANYONECANPAY
+  rw [key 0x80 (by decide), key 0x1f (by decide)]
+  exact ⟨rfl, rfl, rfl⟩
+
+/-- an edit of an input that leaves its outpoint and sequence number alone (it may replace the scriptSig and the witness) -/
+def UnlockEdit (e : TxIn → TxIn) : Prop :=
+  ∀ t, (e t).prevHash = t.prevHash ∧ (e t).prevIndex = t.prevIndex ∧ (e t).sequence = t.sequence
+
+theorem isCoinbase_map (tx : Tx) (e : TxIn → TxIn) (he : UnlockEdit e) :
+    ({ tx with ins := tx.ins.map e } : Tx).isCoinbase = tx.isCoinbase := by
+  unfold Tx.isCoinbase
+  match h : tx.ins with
+  | [] => simp
+  | [t] => simp [TxIn.isCoinbase, (he t).1, (he t).2.1]
+  | t :: u :: r => simp
+
+theorem legacyTmpTx_map (tx : Tx) (e : TxIn → TxIn) (he : UnlockEdit e) (script : Bytes) (idx ht : Nat) :
+    legacyTmpTx { tx with ins := tx.ins.map e } script idx ht = legacyTmpTx tx script idx ht := by
+  have h : (tx.ins.map e).mapIdx (fun i t => txInForIdx i idx t script) = tx.ins.mapIdx (fun i t => txInForIdx i idx t script) := by
+    apply List.ext_getElem?
+    intro i
+    simp only [List.getElem?_mapIdx, List.getElem?_map]
+    cases tx.ins[i]? with
+    | none => rfl
+    | some t => simp [txInForIdx, (he t).1, (he t).2.1, (he t).2.2]
+  unfold legacyTmpTx
+  simp only [h]
+  rfl
+
+theorem concatM_map {α : Type} (f : α → Except Sighash.Err Bytes) (e : α → α) (h : ∀ a, f (e a) = f a) :
+    ∀ l : List α, concatM f (l.map e) = concatM f l
+  | [] => rfl
+  | a :: as => by simp only [List.map_cons, concatM, h a, concatM_map f e h as]
+
+theorem segwitPreimage_map (c : Coin) (tx : Tx) (us : List (Option TxOut)) (e : TxIn → TxIn) (he : UnlockEdit e)
+    (script : Bytes) (idx ht : Nat) (hsame : ∀ t, tx.ins[idx]? = some t → e t = t) :
+    segwitPreimage c { tx with ins := tx.ins.map e } us script idx ht = segwitPreimage c tx us script idx ht := by
+  have h1 : Sighash.hashPrevouts c { tx with ins := tx.ins.map e } ht = Sighash.hashPrevouts c tx ht := by
+    unfold Sighash.hashPrevouts
+    simp only
+    rw [concatM_map _ e (fun t => by simp only [(he t).1, (he t).2.1])]
+  have h2 : Sighash.hashSequence c { tx with ins := tx.ins.map e } ht = Sighash.hashSequence c tx ht := by
+    unfold Sighash.hashSequence
+    simp only
+    rw [concatM_map _ e (fun t => by simp only [(he t).2.2])]
+  have h3 : Sighash.hashOutputs c { tx with ins := tx.ins.map e } ht idx = Sighash.hashOutputs c tx ht idx := rfl
+  have h4 : (tx.ins.map e)[idx]? = tx.ins[idx]? := by
+    rw [List.getElem?_map]
+    cases h : tx.ins[idx]? with
+    | none => rfl
+    | some t => simp [hsame t h]
+  unfold segwitPreimage
+  simp only [h1, h2, h3, h4]
+/-! ## the frame direction: a change outside the commitment leaves the verdict as it was -/
+
+/-- the script code a closure digests: the witness closure and Bitcoin Cash take the script as it stands, the others
+remove the signature pushes first -/
+def closureCode (c : Coin) (q : Query) : Except Sighash.Err Bytes :=
+  if q.witness || !closureDeletesSigs c then .ok q.script else deleteSignatures q.script q.sigs
+
+/-- from the bytes a signature commits to, to the number handed to `generator.verify` -/
+def digestOf (c : Coin) (witness : Bool) : Except Sighash.Err (Option Bytes) → Except Sighash.Err Nat
+  | .error e => .error e
+  | .ok none => .ok Gen.Sighash.singleBugValue
+  | .ok (some p) => .ok (beNat (sha (if witness || requiresForkId c then segwitSingleSha c else legacySingleSha c) p))
+
+/-- C06.oracle_reads_preimage_only: what a closure of `check_solution` answers depends on the transaction and the
+unspents **only through the committed bytes** (`preimageOf`: the legacy message, or the BIP143 message with the fork id
+folded in) -/
+theorem C06_oracle_reads_preimage_only (c : Coin) (s : State) (idx : Nat) (q : Query) :
+    oracle c s idx q =
+      match closureCode c q with
+      | .error e => .error e
+      | .ok code => digestOf c q.witness (preimageOf c s q.witness code idx q.ht) := by
+  unfold oracle closureCode preimageOf
+  cases hw : q.witness with
+  | true =>
+    simp only [if_true, Bool.true_or, witnessSighashF, segwitSignatureHash, digestOf]
+    split
+    · rfl
+    · cases segwitPreimage c s.tx s.us q.script idx (q.ht ||| forkId c <<< 8) <;> rfl
+  | false =>
+    simp only [Bool.false_eq_true, if_false, Bool.false_or, sighashF]
+    cases hd : closureDeletesSigs c with
+    | false =>
+      simp only [Bool.not_false, if_true, Bool.false_eq_true, if_false]
+      unfold signatureHash
+      cases hr : requiresForkId c with
+      | true =>
+        simp only [if_true, Bool.true_and, decide_eq_true_eq]
+        unfold segwitSignatureHash
+        by_cases hf : q.ht &&& Gen.Sighash.sighashForkid ≠ Gen.Sighash.sighashForkid
+        · simp [hf, digestOf]
+        · simp only [hf, if_false, decide_false, Bool.and_false, Bool.false_eq_true]
+          cases segwitPreimage c s.tx s.us q.script idx (q.ht ||| forkId c <<< 8) <;> simp [digestOf, hr]
+      | false =>
+        simp only [Bool.false_eq_true, if_false, legacySignatureHash]
+        cases Sighash.legacyPreimage c s.tx q.script idx q.ht with
+        | error e => rfl
+        | ok o => cases o <;> simp [digestOf, hr]
+    | true =>
+      simp only [Bool.not_true, Bool.false_eq_true, if_false, if_true]
+      cases deleteSignatures q.script q.sigs with
+      | error e => rfl
+      | ok code =>
+        simp only
+        unfold signatureHash
+        cases hr : requiresForkId c with
+        | true =>
+          simp only [if_true, Bool.true_and, decide_eq_true_eq]
+          unfold segwitSignatureHash
+          by_cases hf : q.ht &&& Gen.Sighash.sighashForkid ≠ Gen.Sighash.sighashForkid
+          · simp [hf, digestOf]
+          · simp only [hf, if_false, decide_false, Bool.and_false, Bool.false_eq_true]
+            cases segwitPreimage c s.tx s.us code idx (q.ht ||| forkId c <<< 8) <;> simp [digestOf, hr]
+        | false =>
+          simp only [Bool.false_eq_true, if_false, legacySignatureHash]
+          cases Sighash.legacyPreimage c s.tx code idx q.ht with
+          | error e => rfl
+          | ok o => cases o <;> simp [digestOf, hr]
+
+/-- C06.uncommitted_change_same_verdict: if two states give input `idx` the same context, have its spent output known
+in both, and the bytes committed to by every signature the interpreter may check (`Q`) are the same — which, by
+`C06_committed_fields_legacy` / `C06_committed_fields_bip143`, is the case exactly when the change is confined to fields
+outside the commitment of those hash types — then `is_solution_ok(idx)` returns the same verdict in both -/
+theorem C06_uncommitted_change_same_verdict (V : VM) (c : Coin) (Q : Query → Prop)
+    (hV : ∀ ctx f g, (∀ q, Q q → f q = g q) → V ctx f = V ctx g)
+    (s s' : State) (idx : Nat)
+    (hctx : txContextForIdx s idx = txContextForIdx s' idx)
+    (hknown : (s.us[idx]?.join).isSome = (s'.us[idx]?.join).isSome)
+    (hpre : ∀ q, Q q → ∀ code, closureCode c q = .ok code →
+      preimageOf c s q.witness code idx q.ht = preimageOf c s' q.witness code idx q.ht) :
+    isSolutionOk V c s idx = isSolutionOk V c s' idx := by
+  apply C06_verdict_frame V c Q hV s s' idx hctx hknown
+  intro q hq
+  rw [C06_oracle_reads_preimage_only, C06_oracle_reads_preimage_only]
+  cases hc : closureCode c q with
+  | error e => rfl
+  | ok code => simp only [hpre q hq code hc]
+
+
+/-- C06.other_unlocking_data_free: replacing the scriptSig and witness of inputs other than `idx` (any edit that keeps
+outpoints and sequence numbers, and is the identity on input `idx`) never changes the verdict for input `idx` — for every
+coin class, every hash type of its signatures, and every interpreter that reads the transaction through its context and
+closures only -/
+theorem C06_other_unlocking_data_free (V : VM) (c : Coin)
+    (hV : ∀ ctx f g, (∀ q, f q = g q) → V ctx f = V ctx g)
+    (s : State) (idx : Nat) (e : TxIn → TxIn) (he : UnlockEdit e) (hsame : ∀ t, s.tx.ins[idx]? = some t → e t = t) :
+    isSolutionOk V c ⟨{ s.tx with ins := s.tx.ins.map e }, s.us⟩ idx = isSolutionOk V c s idx := by
+  have h4 : (s.tx.ins.map e)[idx]? = s.tx.ins[idx]? := by
+    rw [List.getElem?_map]
+    cases h : s.tx.ins[idx]? with
+    | none => rfl
+    | some t => simp [hsame t h]
+  apply C06_uncommitted_change_same_verdict V c (fun _ => True) (fun ctx f g h => hV ctx f g (fun q => h q trivial))
+  · unfold txContextForIdx missingUnspent
+    simp only [isCoinbase_map s.tx e he, h4]
+  · rfl
+  · intro q _ code _
+    unfold preimageOf
+    simp only [segwitPreimage_map c s.tx s.us e he code idx _ hsame]
+    unfold Sighash.legacyPreimage
+    simp only [legacyTmpTx_map s.tx e he]
+
+/-- C06.none_outputs_free (legacy classes): when every signature the interpreter may check for input `idx` has base type
+SIGHASH_NONE, replacing the whole output list leaves the verdict as it was -/
+theorem C06_none_outputs_free (V : VM) (c : Coin) (Q : Query → Prop)
+    (hV : ∀ ctx f g, (∀ q, Q q → f q = g q) → V ctx f = V ctx g)
+    (hQ : ∀ q, Q q → fHashNone q.ht = true)
+    (s : State) (idx : Nat) (outs' : List TxOut) (hcb : ({ s.tx with outs := outs' } : Tx).isCoinbase = s.tx.isCoinbase) :
+    isSolutionOk V c ⟨{ s.tx with outs := outs' }, s.us⟩ idx = isSolutionOk V c s idx := by
+  apply C06_uncommitted_change_same_verdict V c Q hV
+  · unfold txContextForIdx missingUnspent
+    simp only [hcb]
+  · rfl
+  · intro q hq code _
+    have hn := hQ q hq
+    have hs : fHashSingle q.ht = false := flags_excl q.ht hn
+    have hm : q.ht &&& 0x1f = 2 := by simpa [fHashNone, SIGHASH_NONE] using hn
+    have hf : ∀ f, fHashNone (q.ht ||| (f <<< 8)) = true := fun f => by rw [(C06_forkid_flags q.ht f).2.2]; exact hn
+    have hm' : ∀ f, (q.ht ||| (f <<< 8)) &&& 0x1f = 2 := fun f => by simpa [fHashNone, SIGHASH_NONE] using hf f
+    unfold preimageOf
+    have e1 : ∀ ht, ht &&& 0x1f = 2 → ∀ code, segwitPreimage c { s.tx with outs := outs' } s.us code idx ht = segwitPreimage c s.tx s.us code idx ht := by
+      intro ht hht code
+      have ho : Sighash.hashOutputs c { s.tx with outs := outs' } ht idx = Sighash.hashOutputs c s.tx ht idx := by
+        unfold Sighash.hashOutputs
+        simp [parts_eq, hht, c_single, c_none]
+      unfold segwitPreimage
+      simp only [ho]
+      rfl
+    have e2 : ∀ code, Sighash.legacyPreimage c { s.tx with outs := outs' } code idx q.ht = Sighash.legacyPreimage c s.tx code idx q.ht := by
+      intro code
+      unfold Sighash.legacyPreimage legacyTmpTx blank
+      simp only [c_mask, c_none, hm, if_true]
+    simp only [e1 _ (hm' _), e2]
+
+/-! ## histories on one object -/
+
+/-- a step of a history on one `Tx` object: an observer, or any in-place change of the fields or the unspents -/
+inductive Step
+  | validate (idx : Nat)                 -- `tx.is_solution_ok(idx)`
+  | count                                -- `tx.bad_solution_count()`
+  | mutate (f : State → State)           -- any assignment to the transaction's fields / `set_unspents` / `unspents_from_db`
+
+inductive Answer
+  | verdict (r : Except String Bool)
+  | count (r : Except String Nat)
+
+/-- what a *fresh* object holding the fields `s` answers to an observer -/
+def fresh (V : VM) (c : Coin) (s : State) : Step → Option Answer
+  | .validate idx => some (.verdict (isSolutionOk V c s idx))
+  | .count => some (.count (badSolutionCount V c s))
+  | .mutate _ => none
+
+/-- the object after a step: observers keep nothing (`check_solution` builds a new `SolutionChecker` on every call; the
+only cache, `sighash_cache`, is local to one `checksigs` execution — `C06_cache_transparent`) -/
+def after (s : State) : Step → State
+  | .mutate f => f s
+  | _ => s
+
+/-- run a history on one object: the answers of its observers, in order -/
+def runHistory (V : VM) (c : Coin) : State → List Step → List Answer
+  | _, [] => []
+  | s, st :: rest => (fresh V c s st).toList ++ runHistory V c (after s st) rest
+
+/-- the fields the object holds before step `k` of the history -/
+def stateAt (s : State) : List Step → Nat → State
+  | [], _ => s
+  | _ :: _, 0 => s
+  | st :: rest, k + 1 => stateAt (after s st) rest k
+
+/-- C06.history_fresh: in any history of validations and in-place changes on one object, every verdict is the one a fresh
+object built from the fields at that moment gives; in particular repeating a validation, with or without validations of
+other inputs in between, repeats the verdict -/
+theorem C06_history_fresh (V : VM) (c : Coin) : ∀ (steps : List Step) (s : State),
+    runHistory V c s steps = (List.range steps.length).flatMap (fun k =>
+      match steps[k]? with
+      | some st => (fresh V c (stateAt s steps k) st).toList
+      | none => [])
+  | [], s => rfl
+  | st :: rest, s => by
+    rw [runHistory, C06_history_fresh V c rest (after s st)]
+    simp only [List.length_cons, List.range_succ_eq_map, List.flatMap_cons, List.getElem?_cons_zero, stateAt,
+      List.flatMap_map, List.getElem?_cons_succ]
+
+/-- C06.repeat_same_verdict: observers do not change the object, so asking again gives the same answer -/
+theorem C06_repeat_same_verdict (V : VM) (c : Coin) (s : State) (idx : Nat) (between : List Step)
+    (hobs : ∀ st ∈ between, ∀ f, st ≠ .mutate f) :
+    (runHistory V c s ([.validate idx] ++ between ++ [.validate idx])).head? =
+    (runHistory V c s ([.validate idx] ++ between ++ [.validate idx])).getLast? := by
+  have hstate : ∀ (l : List Step) (s : State), (∀ st ∈ l, ∀ f, st ≠ .mutate f) →
+      runHistory V c s (l ++ [.validate idx]) = runHistory V c s l ++ [.verdict (isSolutionOk V c s idx)] := by
+    intro l
+    induction l with
+    | nil => intro s _; simp [runHistory, fresh]
+    | cons a as ih =>
+      intro s h
+      have ha : after s a = s := by
+        cases a with
+        | mutate f => exact absurd rfl (h _ (by simp) f)
+        | validate i => rfl
+        | count => rfl
+      simp only [List.cons_append, runHistory, ha, ih s (fun st hst => h st (by simp [hst])), List.append_assoc]
+  rw [List.append_assoc, List.cons_append, List.nil_append, runHistory]
+  simp only [fresh, Option.toList, after, List.cons_append, List.nil_append, List.head?_cons]
+  rw [hstate between s hobs, ← List.cons_append, List.getLast?_append]
+  rfl
+
+/-! ## the serialiser of the committed bytes is injective -/
+
+/-- C06.preimage_injective: the legacy message — the wire form of a (blanked) transaction, then the hash type — determines
+the transaction and the hash type: no two in-range transactions without witness data and with at least one input, and no
+two hash-type words, share a message.  (For BIP143 the ten items are recovered by `C06_committed_iff_bip143`.) -/
+theorem C06_preimage_injective (a b : Tx) (ha : a.WF) (hb : b.WF) (ha1 : 1 ≤ a.ins.length) (hb1 : 1 ≤ b.ins.length)
+    (hwa : Spec.Wire.hasWitness a = false) (hwb : Spec.Wire.hasWitness b = false) (ht ht' : Nat)
+    (hht : ht < 2 ^ 32) (hht' : ht' < 2 ^ 32)
+    (h : Spec.Wire.legacy a ++ le 4 ht = Spec.Wire.legacy b ++ le 4 ht') : a = b ∧ ht = ht' := by
+  obtain ⟨h1, h2⟩ := List.append_inj' h (by simp [le_length])
+  exact ⟨legacy_injective a b ha hb ha1 hb1 hwa hwb h1, le_inj (k := 4) (by omega) (by omega) h2⟩
+
 /-! ## tampering -/
 
 /-- C06.tamper_fails (partial: the two extra hypotheses are cryptographic assumptions, not facts about the code —
@@ -391,5 +759,26 @@ def exCode : Bytes := [0x76, 0xab, 0x02, 0xab, 0xab, 0xac]
 #guard (isSolutionOk (fun _ _ => .ok) .btc ⟨exTx, [none, some ⟨1, []⟩]⟩ 0 matches .ok false)
 #guard (isSolutionOk (fun _ _ => .ok) .btc ⟨exTx, [none, some ⟨1, []⟩]⟩ 2 matches .ok false)
 #guard (isSolutionOk (fun _ _ => .ok) .btc ⟨exTx, [none, some ⟨1, []⟩]⟩ 1 matches .ok true)
+
+-- the field view: an output changed is seen under ALL and SINGLE-at-that-position, not under NONE nor SINGLE elsewhere
+#guard legacyFields exTx exCode 1 0x01 != legacyFields { exTx with outs := [⟨5000, [0x76, 0xa9]⟩, ⟨1, []⟩] } exCode 1 0x01
+#guard legacyFields exTx exCode 1 0x03 != legacyFields { exTx with outs := [⟨5000, [0x76, 0xa9]⟩, ⟨1, []⟩] } exCode 1 0x03
+#guard legacyFields exTx exCode 0 0x03 == legacyFields { exTx with outs := [⟨5000, [0x76, 0xa9]⟩, ⟨1, []⟩] } exCode 0 0x03
+#guard legacyFields exTx exCode 1 0x82 == legacyFields { exTx with outs := [], ins := exTx.ins.take 2 } exCode 1 0x82
+#guard fields143 exTx 1 exCode 7 0x43 == fields143 { exTx with outs := [⟨1, []⟩, ⟨0, []⟩] } 1 exCode 7 0x43
+#guard fields143 exTx 1 exCode 7 0x43 != fields143 exTx 1 exCode 8 0x43
+#guard (fields143 exTx 2 exCode 7 0x03).map (·.outputs) == some none      -- SINGLE without a matching output: nothing
+-- the hypotheses of the frame theorems are satisfiable: an interpreter that asks its closure one question
+def exVM : VM := fun ctx f => match f ⟨false, ctx.puzzleScript, [], 1⟩ with | .ok _ => .ok | .error _ => .scriptError
+example : ∀ ctx f g, (∀ q, f q = g q) → exVM ctx f = exVM ctx g := fun ctx f g h => by simp [exVM, h]
+def exEdit (t : TxIn) : TxIn := if t.prevHash = List.replicate 32 2 then t else { t with script := [0x51], witness := [] }
+theorem exEdit_unlock : UnlockEdit exEdit := by
+  intro t; unfold exEdit; split <;> exact ⟨rfl, rfl, rfl⟩
+example : isSolutionOk exVM .btc ⟨{ exTx with ins := exTx.ins.map exEdit }, [none, some ⟨1, []⟩]⟩ 1 =
+    isSolutionOk exVM .btc ⟨exTx, [none, some ⟨1, []⟩]⟩ 1 :=
+  C06_other_unlocking_data_free exVM .btc (fun ctx f g h => by simp [exVM, h]) ⟨exTx, [none, some ⟨1, []⟩]⟩ 1 exEdit
+    exEdit_unlock (by intro t ht; cases ht; rfl)
+#guard (match runHistory exVM .btc ⟨exTx, [none, some ⟨1, []⟩]⟩ [.validate 1, .validate 0, .count, .validate 1] with
+  | [.verdict (.ok true), .verdict (.ok false), .count (.ok 2), .verdict (.ok true)] => true | _ => false)
 
 end Pycoin.Validate
